@@ -60,6 +60,43 @@ func tagMsg(kind int, s, r uint32, g *gen) []byte {
 	}
 }
 
+// fragment headers whose tags are not unsigned 32 bit hexadecimal numbers, and fragments that are not
+// fragments at all: they carry no tags for the routing helper and bind nothing
+func (g *gen) oddFragmentHeaders(w *world) {
+	w.parties = map[string]*party{}
+	w.dead = false
+	for _, m := range []string{
+		"?OTR|100000200|100000000,00001,00002,AAAA,", // more than 32 bits
+		"?OTR|-100|00000000,00001,00002,AAAA,",       // signed
+		"?OTR|+200|00000000,00001,00002,AAAA,",
+		"?OTR|00000200|-1,00001,00002,AAAA,",
+		"?OTR|ffffffff00000200|00000000,00001,00002,AAAA,",
+	} {
+		olog.ok("C15")
+		if o, t, ok := xtags(w, []byte(m)); ok {
+			olog.viol("C15", "extract-tags-from-non-32-bit-numbers", fmt.Sprintf("ExtractInstanceTags(%q) = (%#x,%#x,true): the header does not carry two unsigned 32 bit tags", m, o, t))
+		}
+		a := w.newParty(partyCfg{policies: 4, keyIdx: 0, errh: true, tag: 0x300})
+		w.recv(a, []byte(m))
+		if tt := otr3.VerifSnapshot(a.c).TheirTag; tt != 0 {
+			olog.viol("C15", "malformed-tag-binds-peer", fmt.Sprintf("after Receive(%q) a fresh conversation is bound to peer instance %#x", m, tt))
+		}
+	}
+	for _, m := range []string{
+		"?OTR|00000200|00000000,garbage",             // no fragment body at all
+		"?OTR|00000200|00000300,00001,00002,AAAA",    // no closing comma
+		"?OTR|00000200|00000300,x,00002,AAAA,",       // not a number
+		"?OTR|00000200|00000300,00001,00002,AA,AA,",  // too many parts
+	} {
+		a := w.newParty(partyCfg{policies: 4, keyIdx: 0, errh: true, tag: 0x300})
+		_, _, err, _ := w.recv(a, []byte(m))
+		olog.ok("C15")
+		if tt := otr3.VerifSnapshot(a.c).TheirTag; tt != 0 && err != nil {
+			olog.viol("C15", "invalid-fragment-binds-peer", fmt.Sprintf("Receive(%q) fails (%v) and yet binds the fresh conversation to peer instance %#x", m, err, tt))
+		}
+	}
+}
+
 func (g *gen) tagsScenario(w *world) {
 	w.parties = map[string]*party{}
 	w.dead = false
@@ -186,6 +223,7 @@ func init() {
 		g := &gen{r: rand.New(rand.NewSource(seed)), out: out, dist: map[string]int{}}
 		olog = &oracleLog{checked: map[string]int{}, out: out}
 		w := newWorld(g)
+		g.oddFragmentHeaders(w)
 		for i := 0; i < n; i++ {
 			g.tagsScenario(w)
 			g.ownTagScenario(w)
